@@ -6,6 +6,7 @@ package sim
 
 import (
 	"bytes"
+	cryptorand "crypto/rand"
 	"encoding/json"
 	"errors"
 	"fmt"
@@ -43,6 +44,9 @@ type World struct {
 	HTTPPolicy func(from, to string, req *http.Request) HTTPAction
 	// DialPolicy decides the fate of a tcp dial. nil = connect.
 	DialPolicy func(address string) DialAction
+
+	// rand is the seeded replacement of crypto/rand.Reader.
+	rand *seededReader
 
 	// delivered lists the datagrams handed to a running node, in order.
 	delivered   [][]byte
@@ -128,13 +132,39 @@ func installHooks() {
 		return nil, errors.New("no simulated world")
 	}
 	http.DefaultTransport = fabricTransport{}
+	cryptorand.Reader = worldReader{}
 }
 
 // NewWorld creates the world of a run; must be called inside the bubble.
 func NewWorld(m *Sim) *World {
 	w := &World{Sim: m, Servers: map[string]*ServerNode{}, byLoc: map[string]*ServerNode{}, Clients: map[string]*ClientNode{}}
 	cur = w
+	m.QuiesceCheck = w.lockProbe
 	return w
+}
+
+// lockProbe runs at every quiescent point: parked goroutines hold no locks and
+// everything else is blocked outside critical sections, so every mutex of
+// every running node must be free. A failure names the mutex before anything
+// blocks on it.
+func (w *World) lockProbe() {
+	for _, n := range w.Servers {
+		if !n.Up || n.S == nil {
+			continue
+		}
+		a, b, c := n.S.VerifTryLocks()
+		if !a || !b || !c {
+			w.Fail(w.Prop+".lock", "server", "a mutex of %s is held while every goroutine is parked or blocked (main=%v servers=%v limiter=%v, phase %s)", n.Name, a, b, c, w.Phase)
+		}
+	}
+	for _, c := range w.Clients {
+		if !c.Up || c.C == nil {
+			continue
+		}
+		if !c.C.VerifTryLock() {
+			w.Fail(w.Prop+".lock", "client", "the mutex of client %s is held while every goroutine is parked or blocked (phase %s): a code path returned without unlocking", c.Name, w.Phase)
+		}
+	}
 }
 
 // AddServer prepares the directory of a server node (not started yet).
